@@ -641,7 +641,22 @@ def rule_6(ctx):
             n += 1
             ctx.expect(S.same(got1, ('Number', w)), anchor, f'models compiled one after the other in one process: {cells[a]} over A1={cells["A1"]}',
                        f'{a} = {cells[a]} evaluates to {got1!r} in a model compiled after another model with the same formula texts; expected {w}')
-    ctx.floor(60, 'order / evaluator / process scenarios')
+    # the footprint after n rounds of the same evaluations does not depend on n: whatever outlives an evaluation (module-level
+    # values, class attributes, default-argument objects, the model, the evaluators) has the same size after round 2 and round 3
+    wb = W.Workbook(ctx, ORDER_CELLS)
+    sizes = []
+    for rnd in range(3):
+        for a in _ORDER_ADDRS:
+            wb.value('Sheet1!' + a)
+        wb.value('Sheet1!' + _ORDER_ADDRS[0], key=f'evaluator of round {rnd}')      # evaluators come and go
+        wb.evaluators.pop(f'evaluator of round {rnd}')
+        sizes.append(S.footprint(wb))
+    grown = sorted((k, sizes[1].get(k, 0), v) for k, v in sizes[2].items() if v > sizes[1].get(k, 0))
+    n += 1
+    ctx.expect(not grown, anchor, 'footprint after repeated evaluations of the same cells',
+               'evaluating the same cells again makes these grow (elements after round 2 -> after round 3): '
+               + '; '.join(f'{k}: {a} -> {b}' for k, a, b in grown[:5]) + ' - the process footprint after n evaluations is bounded independently of n')
+    ctx.floor(61, 'order / evaluator / process scenarios')
 
 
 RULES = [
